@@ -67,6 +67,7 @@ func runC05(c *Ctx) {
 	c.Rule("C05-R4", "CountBySeverity counts every report of the unfiltered list", 4)
 	c.Rule("C05-R5", "who may write Problem.Severity / Summary.reports; report identity includes severity", 5)
 	defer c05ReporterIO(c)
+	defer c05ReportsNotEditedInPlace(c)
 
 	chk := p.Pkg("internal/checks")
 	if chk == nil {
@@ -730,4 +731,69 @@ func c05ReporterIO(c *Ctx) {
 			"the console reporter reads the rule file for reports that are not anchored after the change: for a removed rule in a deleted file the read fails, Submit returns the error and `pint ci` exits non-zero although no problem reaches --fail-on")
 	}
 	c.Check(len(reads) >= 1, "C05-R2", "ConsoleReporter.Submit:file reads enumerated", fi.Decl.Pos(), itoa(len(reads)), "no file read found in the console reporter")
+}
+
+// c05ReportsNotEditedInPlace: reporters get the Summary by value, but its
+// reports slice shares the backing array with the summary the action counts
+// severities on afterwards. Passing Summary.reports to a function that edits
+// its argument in place (slices.CompactFunc, Delete, Sort…, Reverse, Insert,
+// sort.*) anywhere but in Summary's own methods rewrites what is counted: a
+// "unique names" clean-up in one reporter can erase a Bug before the verdict.
+func c05ReportsNotEditedInPlace(c *Ctx) {
+	p := c.P
+	inPlace := map[string]bool{"Compact": true, "CompactFunc": true, "Delete": true, "DeleteFunc": true, "Insert": true, "Replace": true, "Reverse": true,
+		"Sort": true, "SortFunc": true, "SortStableFunc": true, "Slice": true, "SliceStable": true, "Stable": true}
+	n, bad := 0, ""
+	for _, fi := range p.AllFuncs() {
+		if fi.Decl.Body == nil || p.IsTestFile(fi.Decl.Pos()) || relPkg(fi.Pkg.PkgPath) != "internal/reporter" {
+			continue
+		}
+		info := fi.Pkg.TypesInfo
+		isSummaryMethod := strings.HasPrefix(fi.Name, "internal/reporter.Summary.")
+		ast.Inspect(fi.Decl.Body, func(nd ast.Node) bool {
+			call, ok := nd.(*ast.CallExpr)
+			if !ok || len(call.Args) == 0 {
+				return true
+			}
+			fn := Callee(info, call)
+			if fn == nil || fn.Pkg() == nil || (fn.Pkg().Path() != "slices" && fn.Pkg().Path() != "sort") || !inPlace[fn.Name()] {
+				return true
+			}
+			if !fieldSel(info, call.Args[0], "internal/reporter.Summary", "reports") {
+				return true
+			}
+			n++
+			if !isSummaryMethod {
+				bad = fi.Name + " (" + fn.Pkg().Path() + "." + fn.Name() + ")"
+			}
+			return true
+		})
+		// element stores through the field: summary.reports[i] = …
+		ast.Inspect(fi.Decl.Body, func(nd ast.Node) bool {
+			as, ok := nd.(*ast.AssignStmt)
+			if !ok || isSummaryMethod {
+				return true
+			}
+			for _, l := range as.Lhs {
+				root := l
+				for {
+					switch x := ast.Unparen(root).(type) {
+					case *ast.IndexExpr:
+						if fieldSel(info, x.X, "internal/reporter.Summary", "reports") {
+							bad = fi.Name + " (element store)"
+						}
+						root = x.X
+						continue
+					case *ast.SelectorExpr:
+						root = x.X
+						continue
+					}
+					break
+				}
+			}
+			return true
+		})
+	}
+	c.Check(bad == "", "C05-R5", "Summary.reports is edited in place only by Summary's own methods", token.NoPos, itoa(n)+" in-place edits, all in Summary methods",
+		"Summary.reports is edited in place in "+bad+": the slice shares its backing array with the summary whose severities are counted after the reporters ran, so a report can be dropped or zeroed (severity Information) before the exit status is decided")
 }
